@@ -139,6 +139,11 @@ def run(ctx):
                     q = violate(rng, A, base, kind, ctx.alg)
                     if q:
                         ps.append(q)
+        for _ in range(12 if ctx.thorough else 5):       # both variants (n+1 scalars | one vector of dimension > n), several n
+            base = problems.gen_problem(rng, A, alg_name="NLOPT_LD_SLSQP", box="finite")
+            q = violate(rng, A, base, "too_many_eq", ctx.alg)
+            if q:
+                ps.append(q)
         lines = [problems.to_line(p) for p in ps]
         runs, _ = swrap.run_specs(bdir, lines)
         import collections
